@@ -403,7 +403,7 @@ func inputTypeValidForTypeComponent(ctx context.Context, inputSchema *Schema, tc
 			return nil
 		}
 	}
-	return i18n.NewError(ctx, signermsgs.MsgFFITypeMismatch, inputTypeString, tc.ElementaryType().String())
+	return i18n.NewError(ctx, signermsgs.MsgFFITypeMismatch, inputTypeString, tc.String())
 }
 
 func buildABIParameterArrayForObject(ctx context.Context, properties map[string]*Schema) (abi.ParameterArray, error) {
